@@ -530,3 +530,23 @@ package utils
 //@   assumed
 //@   pure
 //@ end
+
+// C01 (helpers of the bloom feeding at block flush): HasUpper only reads; the
+// lower-casing into a work buffer writes the work buffer only (the in-place
+// variant, by contrast, writes its argument).
+//@ func HasUpper
+//@   props C01
+//@   pure
+//@ end
+//@ func BytesToLower
+//@   props C01
+//@   modifies contents(workBuf)
+//@   safe
+//@   ensures implies(result1 == nil, samebase(result0, workBuf) && len(result0) == len(b))
+//@   loop 1:
+//@     invariant 0 <= i && i <= blen && blen == len(b) && blen <= len(workBuf)
+//@ end
+//@ func BytesToLowerInPlace
+//@   props C01
+//@   modifies contents(b)
+//@ end
